@@ -73,7 +73,7 @@ def strip_generics(s):
     """removes balanced `::<...>` turbofish segments"""
     out = ""; i = 0
     while i < len(s):
-        if s.startswith("::<", i):
+        if s.startswith("::<", i) and not s.startswith("::<impl ", i):
             depth = 0; j = i + 2
             while j < len(s):
                 if s[j] == "-" and j + 1 < len(s) and s[j + 1] == ">":
